@@ -25,7 +25,7 @@ mod proofs {
         ($name:ident, $k:expr, $space:expr) => {
             #[kani::proof]
             #[kani::unwind(4)]
-            fn $name() {
+            pub fn $name() {
                 let mut a = Arena::<$space>([0u8; $space]);
                 put_hdr(&mut a.0, 0, 16 + 4 * $k, 1, 1);
                 let fds: [i32; 2] = [kani::any(), kani::any()];
@@ -55,7 +55,7 @@ mod proofs {
     /// Two messages back to back (1 and 2 descriptors), buffer exactly CMSG_SPACE(4)+CMSG_SPACE(8) = 48 bytes.
     #[kani::proof]
     #[kani::unwind(4)]
-    fn c16_cmsg_two_messages() {
+    pub fn c16_cmsg_two_messages() {
         let mut a = Arena::<48>([0u8; 48]);
         put_hdr(&mut a.0, 0, 20, 1, 1);
         put_hdr(&mut a.0, 24, 24, 1, 1);
@@ -85,7 +85,7 @@ mod proofs {
     /// SCM_RIGHTS messages are yielded, and nothing panics.
     #[kani::proof]
     #[kani::unwind(5)]
-    fn c16_cmsg_wellformed_any_layout() {
+    pub fn c16_cmsg_wellformed_any_layout() {
         let mut a = Arena::<40>(kani::any());
         let len: usize = kani::any();
         kani::assume(len <= 40);
